@@ -219,7 +219,10 @@ def run_case(case):
         # active constraints hold to the accuracy of the solver's triangular solves: eps64 cond(G), cond <= (1+reg)/reg
         t_primal = (4.0 * e * max(float(np.abs(w).max()), float(np.abs(u).max()))
                     + 64.0 * np.finfo(np.float64).eps * wn / reg)
-        t_dual = dG * wn + 4.0 * e * float((np.abs(G) @ np.abs(w)).max())
+        # (the same solver accuracy reaches G w through |G|: without it the bound is only the rounding of the product and was
+        # exceeded by 5% on one thorough-tier case, seed 1)
+        t_dual = (dG * wn + 4.0 * e * float((np.abs(G) @ np.abs(w)).max())
+                  + 64.0 * np.finfo(np.float64).eps * float(np.abs(G).max()) * wn / reg)
         t_compl = float(np.abs(w - u).max()) * t_dual + t_primal * float(np.abs(Gw).max())
         res = {"primal": float(np.max(u - w)), "dual": float(np.max(-Gw)), "compl": float(np.abs((w - u) * Gw).max())}
         for k, t in (("primal", t_primal), ("dual", t_dual), ("compl", t_compl)):
